@@ -28,18 +28,6 @@ import (
 	"github.com/nsqio/nsq/internal/util"
 )
 
-func vfE1MsgID(n int) MessageID {
-	var id MessageID
-	copy(id[:], fmt.Sprintf("%016d", n))
-	return id
-}
-
-func vfE1IDNum(id MessageID) int {
-	var n int
-	fmt.Sscanf(string(id[:]), "%d", &n)
-	return n
-}
-
 type vfE1Ent struct {
 	id    int
 	pri   int64
@@ -441,6 +429,7 @@ func TestVerifChanCorr(t *testing.T) {
 	}
 	go nsqd.Main()
 	defer nsqd.Exit()
+	defer vfE1PanicGuard("an operation on the real Channel", out)()
 	hist := map[string]int{}
 	fail := func(what string) {
 		fmt.Printf("ORACLE-FAIL %s\n", what)
@@ -740,19 +729,6 @@ func TestVerifChanCorr(t *testing.T) {
 	fmt.Printf("CHAN-HIST episodes=%d %v\n", episodes, hist)
 }
 
-func vfE1Min64(a, b int64) int64 {
-	if a < b {
-		return a
-	}
-	return b
-}
-
-func vfE1Min(a, b int) int {
-	if a < b {
-		return a
-	}
-	return b
-}
 
 // ---------------------------------------------------------------------------------------------
 
@@ -829,6 +805,7 @@ func TestVerifWallClock(t *testing.T) {
 	}
 	tcpAddr, _, nsqd := mustStartNSQD(opts)
 	defer nsqd.Exit()
+	defer vfE1PanicGuard("a wall-clock scenario", nil)()
 	rounds := vfEnvInt("VERIF_N", 2)
 	type result struct {
 		what  string
@@ -1036,6 +1013,7 @@ func TestVerifTouchTCP(t *testing.T) {
 	opts.MaxReqTimeout = 47 * time.Minute
 	tcpAddr, _, nsqd := mustStartNSQD(opts)
 	defer nsqd.Exit()
+	defer vfE1PanicGuard("TOUCH over TCP", nil)()
 	r := vfNewRand(73)
 	n := vfEnvInt("VERIF_N", 20)
 	okCount := 0
